@@ -217,7 +217,8 @@ func (l *L2) Render(c Call) auditgen.Group {
 	if c.Typ == "LOGIN" && c.Pid == 0 {
 		pid = []string{"abc", "12x", "0x10", "-"}[c.Tag%4]
 	}
-	g := l.Gen.Lines(auditgen.Event{Tag: c.Tag, Sess: l.W.RealSess(c.Sess), Typ: c.Typ, Pid: pid, Res: c.Res, Args: c.Args})
+	g := l.Gen.Lines(auditgen.Event{Tag: c.Tag, Sess: l.W.RealSess(c.Sess), Typ: c.Typ, Pid: pid, Res: c.Res, Args: c.Args,
+		OldSes: l.W.someOtherSess(c.Sess, c.Tag)})
 	l.tsTag[g.TS.UnixNano()] = c.Tag
 	l.W.tsTag = l.tsTag
 	if ref, err := auditgen.Reference(g.Lines); err == nil {
